@@ -918,7 +918,7 @@ func (fc *funcCtx) binTerm(st *State, op token.Token, a, b Sc, t types.Type, pos
 	switch op {
 	case token.ADD:
 		if a.S == SStr {
-			return Sc{app("gs.cat", a.T, b.T), SStr}
+			return Sc{catTerm(a.T, b.T), SStr}
 		}
 		return fc.wrap(st, Sc{app("+", a.T, b.T), a.S}, t)
 	case token.SUB:
